@@ -53,7 +53,8 @@ CHECKS.update({
         technique='MetaObs.tla AssocViolations / IdViolations / Consistent / SubtypeViolations evaluated by TLC on every '
                   'state of Meta.tla histories and compared with xtuml.check_* / is_consistent; over-populated ends by loading every '
                   'population TLC enumerates from the C03 row choices; MetaObs!CliCount specifies xtuml.consistency_check.main '
-                  '(-r / -k restrictions, exit status) on the persisted model',
+                  '(-r / -k restrictions, exit status) on the persisted model and bridgepoint.consistency_check.main (-g as well) on '
+                  'BridgePoint populations, with the part of the ooaofooa schema that decides the counts as constants of Meta.tla',
         text='The counts are defined relationally over the specification state (partner count outside multiplicity and '
              'conditionality per instance and end; null identifying values plus repeated identifiers) and compared after '
              'every step of exhaustive tours over all shapes and of histories with explicit null and repeated identifiers, '
@@ -70,7 +71,8 @@ CHECKS.update({
     'C19': dict(
         technique='Meta.tla value alphabet (VNew over all typed positional/keyword mixes, VGenNext, VGenPeek) model-checked '
                   'with the integer and a user generator (invariant FreshIds, action property DefaultsOK); tours and '
-                  'random creation sequences (also with the uuid generator) validated by TLC with IdsOK; with the alphabet flag newref the '
+                  'random creation sequences (also with the uuid generator and with a user generator that redefines next() / peek()) '
+                  'validated by TLC with IdsOK; with the alphabet flag newref the '
                   'arguments run through referential attributes (Meta!NewCall: keyword over positional over default, supplied '
                   'references link as NewRow)',
         text='Every mix of positional, keyword and omitted arguments of a small class is an action instance of the model, so '
@@ -108,15 +110,17 @@ CHECKS.update({
 
 CHECKS.update({
     'C12': dict(
-        technique='LoadIO.tla (Accept / RejectInput / Build, properties RejectedInputIsStutter, BuildIsPure) model-checked; histories of '
+        technique='LoadIO.tla (state: the accumulated statements written out in full; Accept appends, RejectInput / Build leave '
+                  'them unchanged; properties RejectedInputIsStutter, BuildIsPure, AppendOnly) model-checked; histories of '
                   'valid texts, every single-edit token mutant, token soups and character noise fed to a real loader next to a twin '
-                  'loader; recorded outcomes, statement counts and twin equality validated by TLC (LoadIOTrace.tla)',
+                  'loader; recorded outcomes, statement counts, the full content after every call and twin equality validated '
+                  'by TLC (LoadIOTrace.tla)',
         text='The specification fixes the only outcomes a loader may have and that rejection is a stutter step; it deliberately does '
              'not say which texts are accepted. Every recorded call must be one of those actions, so an unrelated built-in '
-             'exception, a half-applied text (statement count or twin build differs) or a call exceeding its time budget has no '
+             'exception, a half-applied text (statement count, content of any statement held earlier, or twin build differs) or a call exceeding its time budget has no '
              'matching action and is reported.',
         design_ref='DESIGN.md §3, §4 C12',
-        note='trusted: TLC, the recording adapter vt/adapters/loadio.py (exception class, len(loader.statements), serialisation '
+        note='trusted: TLC, the recording adapter vt/adapters/loadio.py (exception class, len(loader.statements), every statement written out field by field, serialisation '
              'of loader and twin builds), the mutation operators of vt/sqltok.py'),
 })
 
